@@ -17,7 +17,8 @@ from ..core import META, Ctx, RuleResult, rule
 from ..model import AnalysisError, Func, norm_stmt, parent
 from ..pattern import C, G, V, call, match, norm
 from ..terms import Term, alts, contains, ends_with_attrs, root_of, show, subterms
-from ..util import calls_in, deep_subterms, nodes_in
+from ..callgraph import bind_args
+from ..util import call_sites_to, calls_in, cond_value, deep_subterms, guard_leaves, nodes_in
 from .c02 import c02_7
 from .c08 import c08_7
 from .c14 import ensemble_calculate, optimizer_callbacks
@@ -37,12 +38,43 @@ def _mask(t: Term) -> bool:
     return ends_with_attrs(t, "variables", "mask")
 
 
-def completion_fn(ctx: Ctx, cb: Func) -> Func:
-    for _c, cs, _k in ctx.cg.all_callees(cb):
-        for g in cs:
-            if g.cls is cb.cls and contains(ctx.X.return_term(g), lambda s: s[0] == "attr" and "fixed" in s[2]):
-                return g
-    raise AnalysisError("completion function (scatter into the stored full vector) not found")
+def _fixed_field(t: Term):
+    """The object attribute holding the stored full vector: the one attribute of self a scatter
+    base is made of (the configuration, which provides the mask, is not a candidate)."""
+    if t[0] == "update":
+        t = t[1]
+    cfg = {r_ for s_ in subterms(t) if _mask(s_) for r_ in subterms(s_) if r_[0] == "attr" and r_[1][0] == "param"}
+    cands = {s_ for s_ in subterms(t) if s_[0] == "attr" and s_[1][0] == "param" and s_[1][2] in ("self", "cls") and s_ not in cfg and not s_[2].endswith("config")}
+    return next(iter(cands))[2] if len(cands) == 1 else None
+
+
+def evaluation_values(ctx: Ctx, cb: Func):
+    """[(call, conditions, leaf)]: the alternatives of the variables argument of every call in
+    the optimizer callback that reaches EnsembleEvaluator.calculate, helpers seen through."""
+    from .c14 import calls_reaching
+
+    X = ctx.X
+    calc = ensemble_calculate(ctx)
+    out = []
+    for call_ in calls_reaching(ctx, cb, calc):
+        t = X.at(cb, call_)
+        v = t[2][0] if t[2] else dict(t[3]).get("variables")
+        if v is None:
+            raise AnalysisError("evaluation call without a variables argument")
+        v = X.force_inline(v, cb)
+        for conds, leaf in guard_leaves(v, strip_wrappers=False):
+            out.append((call_, conds, leaf))
+    if not out:
+        raise AnalysisError("no evaluation request found in the optimizer callback")
+    return out
+
+
+def _is_nested_result(core: Term) -> bool:
+    return core[0] == "attr" and ends_with_attrs(core, "evaluations", "variables") and contains(core, lambda s: s[0] == "item" or (s[0] == "call" and "nested" in show(s[1])))
+
+
+def _vector_param(cb: Func) -> Term:
+    return ("param", cb.qualname, cb.positional[1])
 
 
 @rule(P)
@@ -51,25 +83,22 @@ def c09_1(ctx: Ctx) -> RuleResult:
     X = ctx.X
     calc = ensemble_calculate(ctx)
     for cb in optimizer_callbacks(ctx):
-        comp = completion_fn(ctx, cb)
-        # calls in cb that reach calculate
-        from .c14 import calls_reaching
-
-        for call_ in calls_reaching(ctx, cb, calc):
-            t = X.at(cb, call_)
-            v = t[2][0] if t[2] else dict(t[3]).get("variables")
-            if v is None:
-                raise AnalysisError("evaluation call without a variables argument")
-            bad = []
-            for a in _flat(v):
-                core = a
-                while core[0] == "sub":
-                    core = core[1]
-                if core[0] == "call" and comp in ctx.cg.resolve_fn(core[1], cb):
-                    continue
-                if core[0] == "attr" and ends_with_attrs(core, "evaluations", "variables") and contains(core, lambda s: s[0] == "item" or (s[0] == "call" and "nested" in show(s[1]))):
-                    continue
-                bad.append(a)
+        vp = _vector_param(cb)
+        by_call: dict = {}
+        for call_, conds, leaf in evaluation_values(ctx, cb):
+            core = leaf
+            while core[0] == "sub":
+                core = core[1]
+            good = False
+            if core[0] == "update" and _fixed_field(core[1]) is not None:
+                good = True  # scatter into (a copy of) the stored vector: shape checked by C09.2
+            elif _is_nested_result(core):
+                good = True
+            elif core == ("call", ("attr", vp, "copy"), (), ()) and any(p and a[0] == "cmp" and a[1] == "is" and _mask(a[2]) for a, p in conds):
+                good = True  # no mask: all variables are free
+            by_call.setdefault(call_, []).append((good, leaf))
+        for call_, items in by_call.items():
+            bad = [l_ for g_, l_ in items if not g_]
             ok = not bad
             res.add(cb, call_, "the variables argument is `completed(variables)` or `nested_result.evaluations.variables`", ok,
                     "" if ok else f"`{show(bad[0], 80)}` reaches the evaluator without completion: fixed variables are missing / replaced by optimizer values", construct=f"{cb.name}: variables of {norm_stmt(call_)[:40]}")
@@ -85,54 +114,61 @@ def c09_1(ctx: Ctx) -> RuleResult:
     return res
 
 
-def _flat(t: Term):
-    out = []
-    for a in alts(t):
-        if a[0] == "ifexp":
-            out += _flat(a[2]) + _flat(a[3])
-        else:
-            out.append(a)
-    return out
-
-
 @rule(P)
 def c09_2(ctx: Ctx) -> RuleResult:
     res = RuleResult("C09.2", "COH", "completion: a copy of the stored full vector with the optimizer's values written at `mask` (1-D and batch alike); a plain copy without a mask")
-    X = ctx.X
     for cb in optimizer_callbacks(ctx):
-        comp = completion_fn(ctx, cb)
-        rt = X.return_term(comp)
-        vp = ("param", comp.qualname, comp.positional[1])
-        ups = [a for a in alts(rt) if a[0] == "update"]
-        plain = [a for a in alts(rt) if a[0] != "update"]
-        if len(ups) < 1:
-            res.add(comp, comp.node, "completion scatters into the stored vector", False, f"returns `{show(rt, 100)}`", construct=f"{comp.name}: scatter")
-            continue
-        for u in ups:
-            base, idx, val = u[1], u[3], u[4]
-            last = idx[1][-1] if idx[0] == "tuple" else idx
-            pol = _mask(last)
-            inv = last[0] == "unary" and _mask(last[2])
-            fresh = (base[0] == "call" and ((base[1][0] == "attr" and base[1][2] == "copy") or base[1] == G("numpy.repeat") or base[1] == G("numpy.array") or base[1] == G("numpy.tile")))
-            from_fixed = contains(base, lambda s: s[0] == "attr" and "fixed" in s[2])
-            ok = pol and fresh and from_fixed and val == vp
-            why = ""
-            if inv:
-                why = "values are written at `~mask`: the optimizer's values overwrite the fixed variables and the free ones keep stale values"
-            elif not pol:
-                why = f"scatter index `{show(last, 50)}` is not the variable mask"
-            elif not fresh:
-                why = "the stored full vector itself is written (no copy): later requests see a modified 'fixed' vector"
-            elif not from_fixed:
-                why = "the base of the scatter is not the stored full vector"
-            elif val != vp:
-                why = f"scattered values are `{show(val, 50)}`, not the optimizer's vector"
-            kind = "batch" if idx[0] == "tuple" else "1-D"
-            res.add(comp, comp.node, f"{kind}: copy(stored vector)[mask] = optimizer values", ok, why, construct=f"{comp.name}: scatter {kind}")
-        ok = any(p == ("call", ("attr", vp, "copy"), (), ()) for p in plain) and len(plain) == 1
-        res.add(comp, comp.node, "without a mask the optimizer's vector is passed on as a copy", ok, "" if ok else f"no-mask alternative is `{[show(p, 40) for p in plain]}`", construct=f"{comp.name}: no mask")
+        vp = _vector_param(cb)
+        seen_scatter = seen_plain = False
+        for call_, conds, leaf in evaluation_values(ctx, cb):
+            core = leaf
+            while core[0] == "sub":
+                core = core[1]
+            if _is_nested_result(core):
+                continue
+            if core[0] == "update":
+                seen_scatter = True
+                base, idx, val = core[1], core[3], core[4]
+                last = idx[1][-1] if idx[0] == "tuple" else idx
+                pol = _mask(last)
+                inv = last[0] == "unary" and _mask(last[2])
+                fresh = (base[0] == "call" and ((base[1][0] == "attr" and base[1][2] == "copy") or base[1] in (G("numpy.repeat"), G("numpy.array"), G("numpy.tile"), G("numpy.copy"))))
+                from_fixed = _fixed_field(base) is not None
+                guarded = any((not p) and a[0] == "cmp" and a[1] == "is" and _mask(a[2]) for a, p in conds)
+                ok = pol and fresh and from_fixed and val == vp
+                why = ""
+                if inv:
+                    why = "values are written at `~mask`: the optimizer's values overwrite the fixed variables and the free ones keep stale values"
+                elif not pol:
+                    why = f"scatter index `{show(last, 50)}` is not the variable mask"
+                elif not fresh:
+                    why = "the stored full vector itself is written (no copy): later requests see a modified 'fixed' vector"
+                elif not from_fixed:
+                    why = "the base of the scatter is not the stored full vector"
+                elif val != vp:
+                    why = f"scattered values are `{show(val, 50)}`, not the optimizer's vector"
+                kind = "batch" if idx[0] == "tuple" else "1-D"
+                res.add(cb, call_, f"{kind}: copy(stored vector)[mask] = optimizer values", ok, why, construct=f"completion: scatter {kind}")
+            else:
+                seen_plain = True
+                no_mask = any(p and a[0] == "cmp" and a[1] == "is" and _mask(a[2]) for a, p in conds)
+                ok = no_mask and core in (("call", ("attr", vp, "copy"), (), ()), ("call", G("numpy.copy"), (vp,), ()), ("call", G("numpy.array"), (vp,), ()))
+                res.add(cb, call_, "without a mask the optimizer's vector is passed on as a copy", ok,
+                        "" if ok else f"alternative `{show(core, 50)}` under {[('' if p else 'not ') + show(a, 40) for a, p in conds]}", construct="completion: no mask")
+        if not seen_scatter:
+            res.add(cb, cb.node, "completion scatters into the stored vector", False, "no scatter of the optimizer's values into the stored full vector found", construct="completion: scatter")
+        if not seen_plain:
+            res.add(cb, cb.node, "without a mask the optimizer's vector is passed on as a copy", False, "no alternative for a configuration without a mask", construct="completion: no mask")
     res.floor = 3
     return res
+
+
+def stored_vector_field(ctx: Ctx, cb: Func) -> str:
+    for _c, _conds, leaf in evaluation_values(ctx, cb):
+        f_ = _fixed_field(leaf)
+        if f_ is not None:
+            return f_
+    raise AnalysisError("stored full vector (scatter base) not found in the optimizer callback")
 
 
 @rule(P)
@@ -140,8 +176,7 @@ def c09_3(ctx: Ctx) -> RuleResult:
     res = RuleResult("C09.3", "WHO", "the stored full vector is assigned only from start()'s initial vector and from the nested result, both as copies")
     X = ctx.X
     for cb in optimizer_callbacks(ctx):
-        comp = completion_fn(ctx, cb)
-        fld = next(s[2] for s in subterms(X.return_term(comp)) if s[0] == "attr" and "fixed" in s[2])
+        fld = stored_vector_field(ctx, cb)
         n = 0
         for f in ctx.repo.all_funcs():
             for st in nodes_in(f, (ast.Assign, ast.AugAssign, ast.AnnAssign)):
@@ -174,33 +209,62 @@ def c09_3(ctx: Ctx) -> RuleResult:
 def c09_4(ctx: Ctx) -> RuleResult:
     res = RuleResult("C09.4", "COH", "each sampler handles exactly the free variables assigned to it: mask & (samplers == idx)")
     X = ctx.X
-    f = None
-    for g in ctx.repo.funcs_in("ropt.ensemble_evaluator._ensemble_evaluator"):
-        if g.cls is None and "mask" in g.params and "idx" in g.params:
-            f = g
-    if f is None:
-        raise AnalysisError("sampler mask helper not found")
-    rt = X.return_term(f)
-    idx, gi, mk = ("param", f.qualname, "idx"), ("param", f.qualname, f.positional[1]), ("param", f.qualname, "mask")
-    eq = ("cmp", "==", gi, idx)
-    want = {norm(mk), norm(call("numpy.asarray", eq)), norm(call("numpy.asarray", ("binop", "&", mk, eq)))}
-    got = {norm(a) for a in alts(rt)}
-    got2 = {g_[2][0] if g_[0] == "call" and g_[1] == G("numpy.asarray") else g_ for g_ in got}
-    want2 = {norm(mk), norm(eq), norm(("binop", "&", mk, eq))}
-    ok = got2 == want2
-    res.add(f, f.node, "returns mask (no sampler map), samplers == idx (no mask), mask & (samplers == idx) (both)", ok,
-            "" if ok else f"returns {[show(g_, 60) for g_ in got]}: a sampler can perturb fixed variables or variables of another sampler", construct=f"{f.name}: sampler mask")
-    # used for every sampler with the variable mask and the sampler map
-    for caller, c in ctx.cg.callers(f):
-        t = X.at(caller, c)
-        ok = len(t[2]) == 3 and t[2][0][0] == "enumidx" and ends_with_attrs(t[2][1], "gradient", "samplers") and _mask(t[2][2])
-        res.add(caller, c, "called with (sampler index, gradient.samplers, variables.mask)", ok, "" if ok else f"arguments `{[show(a, 40) for a in t[2]]}`", construct=f"{caller.name}: sampler mask args")
-        # and the result is what the sampler gets
-        creates = [cl for cl in calls_in(caller) if isinstance(cl.func, ast.Attribute) and cl.func.attr == "create"]
-        ok = any(len(X.at(caller, cl)[2]) >= 3 and X.at(caller, cl)[2][2] == t for cl in creates)
-        res.add(caller, c, "the sampler plug-in receives that mask", ok, "" if ok else "the computed mask is not passed to the sampler", construct=f"{caller.name}: mask to sampler")
-    res.floor = 3
+    impls = ctx.repo.implementations("ropt.plugins.sampler.base.SamplerPlugin", "create")
+    base = ctx.repo.funcs.get("ropt.plugins.sampler.base.SamplerPlugin.create")
+    sites = [(f, c) for f, c in call_sites_to(ctx, impls + ([base] if base else [])) if f.module.name.startswith("ropt.ensemble_evaluator")]
+    if not sites:
+        raise AnalysisError("creation of the sampler plug-in objects in the ensemble evaluator not found")
+    for f, c in sites:
+        t = X.at(f, c)
+        bound = bind_args(impls[0] if impls else base, t, bound=True)
+        idx_t, mask_t = bound.get("sampler_index"), bound.get("mask")
+        if idx_t is None or mask_t is None:
+            if len(t[2]) >= 3:
+                idx_t, mask_t = t[2][1], t[2][2]
+            else:
+                raise AnalysisError(f"sampler index / mask arguments not found at {f.where(c)}")
+        ok = idx_t[0] == "enumidx" and ends_with_attrs(idx_t[1], "samplers")
+        res.add(f, c, "the sampler is created with its own index in the configured samplers", ok, "" if ok else f"index argument is `{show(idx_t, 60)}`", construct=f"{f.name}: sampler index")
+        # the mask: by cases on (gradient.samplers is None, variables.mask is None)
+        mask_t = X.force_inline(mask_t, f)
+        leaves = list(guard_leaves(mask_t))
+        smap = [s for s in subterms(mask_t) if ends_with_attrs(s, "gradient", "samplers")]
+        vmask = [s for s in subterms(mask_t) if _mask(s)]
+        why = ""
+        if not vmask:
+            why = "the variable mask does not reach the sampler: it perturbs fixed variables"
+        elif not smap:
+            why = "the sampler map (gradient.samplers) does not reach the sampler mask: a sampler perturbs variables of another sampler"
+        else:
+            S, M = norm(smap[0]), norm(vmask[0])
+            s_none, m_none = ("cmp", "is", S, NONE_T), ("cmp", "is", M, NONE_T)
+            eq = norm(("cmp", "==", S, norm(idx_t)))
+            for conds, leaf in leaves:
+                sn, mn = cond_value(conds, s_none), cond_value(conds, m_none)
+                v = norm(leaf)
+                while v[0] == "call" and v[1] in (G("numpy.asarray"), G("numpy.array")) and len(v[2]) == 1:
+                    v = v[2][0]
+                if sn is True:
+                    good = v == M or (mn is True and v == NONE_T)
+                    exp = "the variable mask"
+                elif sn is False and mn is True:
+                    good = v == eq
+                    exp = "samplers == idx"
+                elif sn is False and mn is False:
+                    good = v == norm(("binop", "&", M, eq))
+                    exp = "mask & (samplers == idx)"
+                else:
+                    good = False
+                    exp = "a case split on `gradient.samplers is None` and `variables.mask is None`"
+                if not good:
+                    why = f"under {[('' if p else 'not ') + show(a, 50) for a, p in conds]} the sampler gets `{show(v, 70)}`, expected {exp}: a sampler can perturb fixed variables or variables of another sampler"
+                    break
+        res.add(f, c, "the sampler's mask is: variables.mask (no sampler map), samplers == idx (no mask), mask & (samplers == idx) (both)", not why, why, construct=f"{f.name}: sampler mask")
+    res.floor = 2
     return res
+
+
+NONE_T = ("const", None)
 
 
 @rule(P)
